@@ -152,8 +152,32 @@ Definition parse_rfc3339 (s : bytes) : option (option vtime) :=
   | _ => None
   end.
 
-(* xsd.Unmarshal on [-]P[nY][nM][nD][T[nH][nM][nS]] with integer parts: a year counts 356 days, a month 30 days
-   (the constants of go-xsd-duration); anything else is outside the model *)
+(* the seconds of go-xsd-duration's parseTagWithValue: v, err := strconv.ParseFloat(text, 32); d.v = time.Duration(float64(time.Second) * v).
+   ParseFloat(.., 32) returns the float32 nearest to the decimal (as a float64); the product with 1e9 is exact in float64
+   (a 24-bit mantissa times the 21-bit mantissa of 1e9 = 1953125 * 2^9); the conversion to int64 truncates.
+   So a decimal of seconds is NOT read back as the nanoseconds it denotes: "0.1" gives 100000001 ns, "0.01" 9999999 ns.
+   [ip] = the digits in front of the point (1 to 9), [fp] = the digits behind it (none when there is no point) *)
+Definition sec_nanos (ip fp : bytes) : option Z :=
+  match parse_nat ip, (match fp with [] => Some 0 | _ => parse_nat fp end) with
+  | Some i, Some f =>
+      let k := Z.of_nat (length fp) in
+      let p := i * 10 ^ k + f in
+      if p =? 0 then Some 0 else
+      let '(m, e) := rn32 p (10 ^ k) in
+      Some (if 0 <=? e then m * 2 ^ e * 1000000000 else m * 1000000000 / 2 ^ (- e))
+  | _, _ => None
+  end.
+
+(* one part of the sum: a part that does not fit an int64 wraps in the Go multiplication (and is refused when the
+   wrapped value is negative): outside the model *)
+Definition add_part (acc v : Z) : option Z := if v <? 2 ^ 63 then Some (acc + v) else None.
+(* the int64 a sum of int64 parts wraps to *)
+Definition wrap64 (z : Z) : Z := (z + 2 ^ 63) mod 2 ^ 64 - 2 ^ 63.
+
+(* xsd.Unmarshal on [-]P[nY][nM][nD][T[nH][nM][n[.n]S]]: a year counts 356 days, a month 30 days (the constants of
+   go-xsd-duration); the accumulator is in nanoseconds, the total wraps like the int64 additions of the code (the text
+   written for the largest duration reads back negative); anything else is outside the model (None): numbers of more
+   than nine digits, fractions of more than thirty, a point anywhere but in the seconds, a part beyond the int64 range *)
 Fixpoint xsd_parts (fuel : nat) (is_time : bool) (s : bytes) (acc : Z) : option Z :=
   match fuel with
   | O => None
@@ -164,19 +188,30 @@ Fixpoint xsd_parts (fuel : nat) (is_time : bool) (s : bytes) (acc : Z) : option 
           if negb is_time && Byte.eqb t x54 then
             match r0 with [] => None | _ => xsd_parts f true r0 acc end
           else
-          let ds := (fix take (l : bytes) : bytes := match l with b :: r => if is_digit b then b :: take r else [] | [] => [] end) s in
+          let take := (fix take (l : bytes) : bytes := match l with b :: r => if is_digit b then b :: take r else [] | [] => [] end) in
+          let ds := take s in
           match parse_nat ds, skipn (length ds) s with
           | Some n, u :: r =>
               if Nat.ltb 9 (length ds) then None      (* strconv.ParseInt(.., 10, 32) *)
               else if is_time then
-                if Byte.eqb u x48 then xsd_parts f true r (acc + n * 3600)
-                else if Byte.eqb u x4d then xsd_parts f true r (acc + n * 60)
-                else if Byte.eqb u x53 then xsd_parts f true r (acc + n)
+                if Byte.eqb u x48 then match add_part acc (n * 3600000000000) with Some a => xsd_parts f true r a | None => None end
+                else if Byte.eqb u x4d then match add_part acc (n * 60000000000) with Some a => xsd_parts f true r a | None => None end
+                else if Byte.eqb u x53 then
+                  match sec_nanos ds [] with Some ns => xsd_parts f true r (acc + ns) | None => None end
+                else if Byte.eqb u x2e then
+                  let fs := take r in
+                  match fs, skipn (length fs) r with
+                  | _ :: _, sb :: r' =>
+                      if Byte.eqb sb x53 && Nat.leb (length fs) 30 then
+                        match sec_nanos ds fs with Some ns => xsd_parts f true r' (acc + ns) | None => None end
+                      else None
+                  | _, _ => None
+                  end
                 else None
               else
-                if Byte.eqb u x59 then xsd_parts f false r (acc + n * 356 * 86400)
-                else if Byte.eqb u x4d then xsd_parts f false r (acc + n * 30 * 86400)
-                else if Byte.eqb u x44 then xsd_parts f false r (acc + n * 86400)
+                if Byte.eqb u x59 then match add_part acc (n * 356 * 86400000000000) with Some a => xsd_parts f false r a | None => None end
+                else if Byte.eqb u x4d then match add_part acc (n * 30 * 86400000000000) with Some a => xsd_parts f false r a | None => None end
+                else if Byte.eqb u x44 then match add_part acc (n * 86400000000000) with Some a => xsd_parts f false r a | None => None end
                 else None
           | _, _ => None
           end
@@ -193,7 +228,7 @@ Definition parse_xsd_duration (s : bytes) : option Z :=
             match rest with
             | [] => None
             | _ => match xsd_parts 12%nat false rest 0 with
-                   | Some secs => Some ((if neg then -1 else 1) * secs * 1000000000)
+                   | Some nanos => Some (wrap64 ((if neg then -1 else 1) * nanos))
                    | None => None
                    end
             end
